@@ -769,12 +769,12 @@ def correspond(ctx):
       imports, tag = ['Grist.Model.Upsert'], 'm'
       defs = EXTRA_DEFS.replace(' && judge_bulk (gen_upsert (oenv_of e) t req cv o) exp', '') \
                        .replace(' && judge_single (gen_upsert_single (oenv_of e) t req cv o) exp', '')
-    bad = ctx.run_cases('bulk' + tag, imports, 'check_bulk', [t for _, t in bulk], shard=100, extra_defs=defs)
+    bad = ctx.run_cases('bulk' + tag, imports, 'check_bulk', [t for _, t in bulk], shard=170, extra_defs=defs)
     for i in bad[:5]:
       case, r = done[bulk[i][0]]
       ctx.broken('correspondence:model%s of BulkAddOrUpdateRecord differs from the engine' % (' or generated code' if with_gen else ''),
                  'case %r engine %r table %r' % (public(case), r[3], r[4]))
-    bad = ctx.run_cases('single' + tag, imports, 'check_single', [t for _, t in single], shard=100, extra_defs=defs)
+    bad = ctx.run_cases('single' + tag, imports, 'check_single', [t for _, t in single], shard=170, extra_defs=defs)
     for i in bad[:5]:
       case, r = done[single[i][0]]
       ctx.broken('correspondence:model%s of AddOrUpdateRecord differs from the engine' % (' or generated code' if with_gen else ''),
